@@ -1,6 +1,7 @@
 import CminxModel.Pipeline
 import CminxModel.Source
 import CminxLemmas.ParseLemmas
+import CminxLemmas.RoundTripLex
 /-!
 # T-parse / T-lex — the printer of decorated modules round-trips through the scanner and the parser
 
@@ -98,6 +99,104 @@ def itemsDanglingOk (inBody : Bool) : List Item → Bool
 end
 
 def Module.danglingOk (m : Module) : Bool := itemsDanglingOk false m.items
+
+/-! ## validity of a decorated module
+
+Every predicate takes the text `follow` that the printer emits after the construct: the only context a token
+needs is whether the next character could extend it.  (`stopHead follow`: `follow` is empty or starts with one of
+``␠ \t \r \n ( ) # "``, see `CminxLemmas/RoundTripTok.lean`.) -/
+
+/-- the bracket terminator `]=*]` occurs in `t ++ ]=*]` only at the end -/
+def closesAtEnd (lvl : Nat) (t : Str) : Bool :=
+  findAfter (bracketClose lvl) (t ++ bracketClose lvl) == some (t.length + (bracketClose lvl).length)
+
+/-- * blanks, tabs, newlines: no condition (adjacent ones merge into one token, which changes nothing);
+    * line comment: its text has no CR/LF and does not open a bracket (`#[[`, `#[=[` … would start a bracket
+      comment); without a line ending it must end the file;
+    * bracket comment: its terminator first occurs at its end, and at level 0 its text does not start with `[`
+      (`#[[[` is CMinx's doccomment opener — known finding K3) -/
+def SepAtom.valid (follow : Str) : SepAtom → Bool
+  | .spaces _ => true
+  | .tabs _ => true
+  | .nl _ => true
+  | .lineComment t eol => t.all notEol && !opensBracket t && (eol.isSome || follow.isEmpty)
+  | .bracketComment lvl t => closesAtEnd lvl t && !(lvl == 0 && t.head? == some '[')
+
+def sepValid (follow : Str) : Sep → Bool
+  | [] => true
+  | a :: as => a.valid (renderSep as ++ follow) && sepValid follow as
+
+/-- * bare word: non-empty, consists of unquoted-argument characters and valid escapes only, does not open a
+      bracket (`[[x` would be an unterminated bracket argument), and what follows does not extend it;
+    * quoted: the first unescaped `"` of `s"` is the closing one and every backslash starts a valid escape;
+    * bracket: its terminator first occurs at its end; if the whole token also reads as an unquoted argument
+      (e.g. `[[ab]]`) what follows must not extend it -/
+def ArgTok.valid (follow : Str) : ArgTok → Bool
+  | .bare s => !s.isEmpty && unqLen s == s.length && !opensBracket s && stopHead follow
+  | .quoted s => quotedBody (s ++ ['"']) == some (s.length + 1)
+  | .bracket lvl s =>
+    closesAtEnd lvl s &&
+      (unqLen (ArgTok.bracket lvl s).text != (ArgTok.bracket lvl s).text.length || stopHead follow)
+
+mutual
+def SArg.valid (follow : Str) : SArg → Bool
+  | .tok pre t => sepValid (t.text ++ follow) pre && t.valid follow
+  | .group pre args close =>
+    sepValid ('(' :: (renderSArgs args ++ (renderSep close ++ ')' :: follow))) pre &&
+      sargsValid (renderSep close ++ ')' :: follow) args && sepValid (')' :: follow) close
+def sargsValid (follow : Str) : List SArg → Bool
+  | [] => true
+  | a :: as => a.valid (renderSArgs as ++ follow) && sargsValid follow as
+end
+
+/-- the command name is an identifier; separators and arguments are valid in their context -/
+def Call.valid (follow : Str) (c : Call) : Bool :=
+  isIdentText c.name &&
+    sepValid (c.name ++ (List.replicate c.sp ' ' ++ '(' :: (renderSArgs c.args ++ (renderSep c.close ++ ')' :: follow))))
+      c.pre &&
+    sargsValid (renderSep c.close ++ ')' :: follow) c.args && sepValid (')' :: follow) c.close
+
+/-- the text of a doccomment between `#[[[` and the closing `#]]` -/
+def DocC.inner (d : DocC) : Str :=
+  d.openSuffix ++ (eolStr d.crlf ++ ((d.lines.map (fun t => d.bodyLine t ++ eolStr d.crlf)).flatten ++ d.ind))
+
+/-- * the indentation consists of blanks and tabs;
+    * `#]]` occurs in the block only as its last three characters;
+    * an ordinary doccomment has nothing after `#[[[` on the opening line; the module doccomment has blanks,
+      `@module`, and the rest of the line there -/
+def DocC.valid (isModule : Bool) (follow : Str) (d : DocC) : Bool :=
+  sepValid (d.ind ++ (d.tokenText ++ follow)) d.pre && d.ind.all isBlank &&
+    findAfter docEnd (d.inner ++ docEnd) == some (d.inner.length + 3) &&
+    (if isModule then (lit "@module").isPrefixOf (d.openSuffix.dropWhile isBlank) else d.openSuffix.isEmpty)
+
+def docOptValid (follow : Str) : Option DocC → Bool
+  | some d => d.valid false follow
+  | none => true
+
+mutual
+def Item.valid (follow : Str) : Item → Bool
+  | .cmd doc call => docOptValid (call.render ++ follow) doc && call.valid follow
+  | .block doc o body c =>
+    docOptValid (o.render ++ (renderSrcItems body ++ (c.render ++ follow))) doc &&
+      o.valid (renderSrcItems body ++ (c.render ++ follow)) && itemsValid (c.render ++ follow) body && c.valid follow
+  | .decl doc d i body c =>
+    docOptValid (d.render ++ (i.render ++ (renderSrcItems body ++ (c.render ++ follow)))) doc &&
+      d.valid (i.render ++ (renderSrcItems body ++ (c.render ++ follow))) &&
+      i.valid (renderSrcItems body ++ (c.render ++ follow)) && itemsValid (c.render ++ follow) body && c.valid follow
+  | .dangling d => d.valid false follow
+def itemsValid (follow : Str) : List Item → Bool
+  | [] => true
+  | i :: is => i.valid (renderSrcItems is ++ follow) && itemsValid follow is
+end
+
+/-- **validity of a decorated module**: dangling doccomments are dangling, and every token and filler atom is
+    valid in its context -/
+def Module.valid (m : Module) : Bool :=
+  m.danglingOk &&
+    (match m.modDoc with
+     | some d => d.valid true (renderSrcItems m.items ++ renderSep m.tail)
+     | none => true) &&
+    itemsValid (renderSep m.tail) m.items && sepValid [] m.tail
 
 /-! ## T-parse -/
 
@@ -256,16 +355,383 @@ theorem T_parse (m : Module) (hd : m.danglingOk = true) : parse m.sigToks = some
     rw [show ({} : PState) = ⟨.top none, [], true⟩ from rfl, h]
     simp only [flushEvents] at hf
     simp only
-    cases p' <;> simp_all [flushEvents]
+    cases p' <;> simp_all
   | some d =>
     obtain ⟨p', evs', st', h, hf, -⟩ := parseFold_items items false none [Event.moduleDoc d.tokenText] false hd
       (by simp)
     simp only [Module.sigToks, Module.events, List.cons_append, List.nil_append, parse]
     rw [parseFold]
-    simp only [parseStep, show ({} : PState) = ⟨.top none, [], true⟩ from rfl, if_true, Option.bind_some]
+    simp only [parseStep, if_true, Option.bind_some]
     rw [h]
     simp only [flushEvents] at hf
     simp only
-    cases p' <;> simp_all [flushEvents]
+    cases p' <;> simp_all
+
+/-! ## T-lex -/
+
+/-! ### filler -/
+
+theorem lex_sepAtom (a : SepAtom) (follow : Str) (hv : a.valid follow = true) : Skips a.render follow := by
+  cases a with
+  | spaces n => exact Skips.blanks _ _ (by simp [SepAtom.render, isBlank])
+  | tabs n => exact Skips.blanks _ _ (by simp [SepAtom.render, isBlank])
+  | nl crlf => exact Skips.eols _ _ (by cases crlf <;> simp [SepAtom.render, eolStr, isEolCh])
+  | lineComment t eol =>
+    simp only [SepAtom.valid, Bool.and_eq_true, Bool.or_eq_true, Bool.not_eq_eq_eq_not, Bool.not_true] at hv
+    obtain ⟨⟨ht, hob⟩, he⟩ := hv
+    cases eol with
+    | some c => exact Skips.lineComment t c follow ht hob
+    | none =>
+      have : follow = [] := by simpa using he
+      subst this
+      simpa [SepAtom.render] using Skips.lineComment_eof t ht hob
+  | bracketComment lvl t =>
+    simp only [SepAtom.valid, closesAtEnd, Bool.and_eq_true, beq_iff_eq, Bool.not_eq_eq_eq_not, Bool.not_true,
+      Bool.and_eq_false_iff] at hv
+    obtain ⟨hf, hk⟩ := hv
+    refine Skips.bracketComment lvl t follow hf ?_
+    intro h0 hh
+    rcases hk with hk | hk
+    · simp [h0] at hk
+    · simp [hh] at hk
+
+theorem lex_sep (sep : Sep) (follow : Str) (hv : sepValid follow sep = true) : Skips (renderSep sep) follow := by
+  induction sep with
+  | nil => exact Skips.nil _
+  | cons a as ih =>
+    simp only [sepValid, Bool.and_eq_true] at hv
+    exact Skips.append (lex_sepAtom a _ hv.1) (ih hv.2)
+
+/-! ### argument tokens -/
+
+theorem spanLen_eq_length_iff (p : Char → Bool) (s : Str) : spanLen p s = s.length ↔ s.all p = true := by
+  induction s with
+  | nil => simp [spanLen_nil]
+  | cons c s ih =>
+    by_cases hc : p c = true
+    · simp [spanLen_cons, hc, ih]
+    · simp [spanLen_cons, hc]
+
+theorem isIdentText_iff (s : Str) : isIdentText s = true ↔ identLen s = some s.length := by
+  cases s with
+  | nil => simp [isIdentText, identLen]
+  | cons c cs =>
+    by_cases hc : identStart c = true
+    · simp only [isIdentText, identLen, hc, Bool.true_and, if_true, Option.some.injEq, List.length_cons]
+      rw [← spanLen_eq_length_iff]; omega
+    · simp [isIdentText, identLen, hc]
+
+theorem lex_argTok (t : ArgTok) (follow : Str) (sig : List Tok) (hv : t.valid follow = true)
+    (h : LexSig follow sig) : LexSig (t.text ++ follow) (t.tok :: sig) := by
+  cases t with
+  | bare s =>
+    simp only [ArgTok.valid, Bool.and_eq_true, Bool.not_eq_eq_eq_not, Bool.not_true, beq_iff_eq] at hv
+    obtain ⟨⟨⟨hne, hu⟩, hob⟩, hr⟩ := hv
+    have hne' : s ≠ [] := by intro e; subst e; simp at hne
+    simp only [ArgTok.text, ArgTok.tok, ArgTok.kind]
+    by_cases hid : isIdentText s = true
+    · rw [if_pos hid]
+      exact LexSig.tok_append (scan_word_ident ((isIdentText_iff s).mp hid) hu hr) rfl h
+    · rw [if_neg hid]
+      exact LexSig.tok_append (scan_word_unq hne' (fun e => hid ((isIdentText_iff s).mpr e)) hu hob hr) rfl h
+  | quoted s =>
+    simp only [ArgTok.valid, beq_iff_eq] at hv
+    have hsc := scan_quoted s follow hv
+    have : ('"' :: (s ++ ['"'])) ++ follow = '"' :: (s ++ '"' :: follow) := by simp
+    simp only [ArgTok.text, ArgTok.tok, ArgTok.kind]
+    refine LexSig.tok_append (k := .quoted) ?_ rfl h
+    rw [this, hsc]; simp
+  | bracket lvl s =>
+    simp only [ArgTok.valid, closesAtEnd, Bool.and_eq_true, beq_iff_eq, Bool.or_eq_true, bne_iff_ne, ne_eq] at hv
+    obtain ⟨hf, hu⟩ := hv
+    simp only [ArgTok.tok, ArgTok.kind]
+    split
+    · rename_i hc
+      have hr : stopHead follow = true := by rcases hu with hu | hu; exact absurd hc hu; exact hu
+      exact LexSig.tok_append (scan_bracket_clean lvl s follow hf hc hr) rfl h
+    · rename_i hc
+      exact LexSig.tok_append (scan_bracket_dirty lvl s follow hf hc) rfl h
+
+theorem lex_lparen (rest : Str) (sig : List Tok) (h : LexSig rest sig) : LexSig ('(' :: rest) (lparenTok :: sig) :=
+  LexSig.tok_append (tok := ['(']) (scan_lparen rest) rfl h
+
+theorem lex_rparen (rest : Str) (sig : List Tok) (h : LexSig rest sig) : LexSig (')' :: rest) (rparenTok :: sig) :=
+  LexSig.tok_append (tok := [')']) (scan_rparen rest) rfl h
+
+/-! ### argument lists -/
+
+mutual
+theorem lex_sarg (a : SArg) (follow : Str) (sig : List Tok) (hv : a.valid follow = true)
+    (h : LexSig follow sig) : LexSig (a.render ++ follow) (a.sigToks ++ sig) := by
+  cases a with
+  | tok pre t =>
+    simp only [SArg.valid, Bool.and_eq_true] at hv
+    simp only [SArg.render, SArg.sigToks, List.append_assoc, List.cons_append, List.nil_append]
+    exact lex_sep pre _ hv.1 _ (lex_argTok t follow sig hv.2 h)
+  | group pre args close =>
+    simp only [SArg.valid, Bool.and_eq_true] at hv
+    obtain ⟨⟨hpre, hargs⟩, hclose⟩ := hv
+    simp only [SArg.render, SArg.sigToks, List.append_assoc, List.cons_append, List.nil_append]
+    refine lex_sep pre _ hpre _ (lex_lparen _ _ ?_)
+    refine lex_sargs args _ _ hargs ?_
+    exact lex_sep close _ hclose _ (lex_rparen _ _ h)
+theorem lex_sargs (as : List SArg) (follow : Str) (sig : List Tok) (hv : sargsValid follow as = true)
+    (h : LexSig follow sig) : LexSig (renderSArgs as ++ follow) (sargsSigToks as ++ sig) := by
+  cases as with
+  | nil => simpa [renderSArgs, sargsSigToks] using h
+  | cons a as =>
+    simp only [sargsValid, Bool.and_eq_true] at hv
+    simp only [renderSArgs, sargsSigToks, List.append_assoc]
+    exact lex_sarg a _ _ hv.1 (lex_sargs as follow sig hv.2 h)
+end
+
+/-! ### command invocations -/
+
+theorem lex_call (c : Call) (follow : Str) (sig : List Tok) (hv : c.valid follow = true)
+    (h : LexSig follow sig) : LexSig (c.render ++ follow) (c.sigToks ++ sig) := by
+  simp only [Call.valid, Bool.and_eq_true] at hv
+  obtain ⟨⟨⟨hname, hpre⟩, hargs⟩, hclose⟩ := hv
+  simp only [Call.render, Call.sigToks, List.append_assoc, List.cons_append, List.nil_append]
+  refine lex_sep c.pre _ hpre _ ?_
+  have hid := (isIdentText_iff c.name).mp hname
+  have hstop : stopHead (List.replicate c.sp ' ' ++
+      '(' :: (renderSArgs c.args ++ (renderSep c.close ++ ')' :: follow))) = true := by
+    cases c.sp <;> simp [stopHead, unqStop, List.replicate_succ]
+  refine LexSig.tok_append (scan_word_ident hid (unqLen_of_identLen hid) hstop) rfl ?_
+  refine Skips.blanks _ _ (by simp [isBlank]) _ (lex_lparen _ _ ?_)
+  refine lex_sargs c.args _ _ hargs ?_
+  exact lex_sep c.close _ hclose _ (lex_rparen _ _ h)
+
+/-! ### doccomments -/
+
+theorem DocC.tokenText_eq (d : DocC) : d.tokenText = docStart ++ (d.inner ++ docEnd) := by
+  simp [DocC.tokenText, DocC.inner]
+
+theorem eolStr_head (crlf : Bool) (x : Str) : ∃ c y, eolStr crlf ++ x = c :: y ∧ isBlank c = false ∧ c ≠ '@' := by
+  cases crlf
+  · exact ⟨'\n', x, rfl, by decide, by decide⟩
+  · exact ⟨'\r', '\n' :: x, rfl, by decide, by decide⟩
+
+theorem lex_doc (d : DocC) (isModule : Bool) (follow : Str) (sig : List Tok) (hv : d.valid isModule follow = true)
+    (h : LexSig follow sig) :
+    LexSig (d.render ++ follow) (⟨if isModule then .moduleDocstring else .docstring, d.tokenText⟩ :: sig) := by
+  simp only [DocC.valid, Bool.and_eq_true, beq_iff_eq] at hv
+  obtain ⟨⟨⟨hpre, hind⟩, hf⟩, hsuf⟩ := hv
+  simp only [DocC.render, List.append_assoc]
+  refine lex_sep d.pre _ hpre _ (Skips.blanks _ _ hind _ ?_)
+  have hf' : findAfter docEnd (d.inner ++ docEnd ++ follow) = some (d.inner.length + 3) := findAfter_append follow hf
+  have hlen : d.tokenText.length = d.inner.length + 3 + 4 := by
+    rw [DocC.tokenText_eq]; simp [docStart_eq, docEnd_eq]
+  have hsplit : d.tokenText ++ follow = docStart ++ (d.inner ++ docEnd ++ follow) := by
+    rw [DocC.tokenText_eq]; simp
+  cases isModule with
+  | false =>
+    have hos : d.openSuffix = [] := by simpa using hsuf
+    have hmod : moduleDocstringLen (docStart ++ (d.inner ++ docEnd ++ follow)) = none := by
+      simp only [DocC.inner, hos, List.nil_append, List.append_assoc]
+      obtain ⟨c, y, hy, hb, hc⟩ := eolStr_head d.crlf
+        (((d.lines.map (fun t => d.bodyLine t ++ eolStr d.crlf)).flatten ++ (d.ind ++ (docEnd ++ follow))))
+      rw [hy]; exact moduleDocstringLen_none c y hb hc
+    have hsc := scan_docstring _ _ hf' hmod
+    rw [← hsplit, ← hlen] at hsc
+    exact LexSig.tok_append hsc rfl h
+  | true =>
+    have hpfx : (lit "@module").isPrefixOf (d.openSuffix.dropWhile isBlank) = true := by simpa using hsuf
+    obtain ⟨z, hz⟩ := List.isPrefixOf_iff_prefix.mp hpfx
+    have hos : d.openSuffix = d.openSuffix.takeWhile isBlank ++ (lit "@module" ++ z) := by
+      rw [hz]; exact List.takeWhile_append_dropWhile.symm
+    have hinner : ∃ y, d.inner ++ docEnd ++ follow = d.openSuffix.takeWhile isBlank ++ lit "@module" ++ y := by
+      refine ⟨z ++ (eolStr d.crlf ++ ((d.lines.map (fun t => d.bodyLine t ++ eolStr d.crlf)).flatten ++ d.ind)) ++
+        docEnd ++ follow, ?_⟩
+      conv => lhs; rw [DocC.inner, hos]
+      simp
+    obtain ⟨y, hy⟩ := hinner
+    rw [hy] at hf'
+    have hmod := moduleDocstringLen_module _ y _ List.all_takeWhile hf'
+    have hsc := scan_moduleDocstring _ _ hf' hmod
+    rw [← hy, ← hsplit, ← hlen] at hsc
+    exact LexSig.tok_append hsc rfl h
+
+theorem lex_docOpt (doc : Option DocC) (follow : Str) (sig : List Tok) (hv : docOptValid follow doc = true)
+    (h : LexSig follow sig) : LexSig (renderDocOpt doc ++ follow) (docOptToks doc ++ sig) := by
+  cases doc with
+  | none => simpa [renderDocOpt, docOptToks] using h
+  | some d => simpa [renderDocOpt, docOptToks, DocC.tok] using lex_doc d false follow sig hv h
+
+/-! ### file elements -/
+
+mutual
+theorem lex_item (i : Item) (follow : Str) (sig : List Tok) (hv : i.valid follow = true)
+    (h : LexSig follow sig) : LexSig (i.render ++ follow) (i.sigToks ++ sig) := by
+  cases i with
+  | cmd doc call =>
+    simp only [Item.valid, Bool.and_eq_true] at hv
+    simp only [Item.render, Item.sigToks, List.append_assoc]
+    exact lex_docOpt doc _ _ hv.1 (lex_call call follow sig hv.2 h)
+  | block doc o body c =>
+    simp only [Item.valid, Bool.and_eq_true] at hv
+    obtain ⟨⟨⟨hdoc, ho⟩, hbody⟩, hc⟩ := hv
+    simp only [Item.render, Item.sigToks, List.append_assoc]
+    refine lex_docOpt doc _ _ hdoc (lex_call o _ _ ho ?_)
+    exact lex_items body _ _ hbody (lex_call c follow sig hc h)
+  | decl doc d i body c =>
+    simp only [Item.valid, Bool.and_eq_true] at hv
+    obtain ⟨⟨⟨⟨hdoc, hd⟩, hi⟩, hbody⟩, hc⟩ := hv
+    simp only [Item.render, Item.sigToks, List.append_assoc]
+    refine lex_docOpt doc _ _ hdoc (lex_call d _ _ hd (lex_call i _ _ hi ?_))
+    exact lex_items body _ _ hbody (lex_call c follow sig hc h)
+  | dangling d =>
+    simp only [Item.valid] at hv
+    simpa [Item.render, Item.sigToks, DocC.tok] using lex_doc d false follow sig hv h
+theorem lex_items (is : List Item) (follow : Str) (sig : List Tok) (hv : itemsValid follow is = true)
+    (h : LexSig follow sig) : LexSig (renderSrcItems is ++ follow) (itemsSigToks is ++ sig) := by
+  cases is with
+  | nil => simpa [renderSrcItems, itemsSigToks] using h
+  | cons i is =>
+    simp only [itemsValid, Bool.and_eq_true] at hv
+    simp only [renderSrcItems, itemsSigToks, List.append_assoc]
+    exact lex_item i _ _ hv.1 (lex_items is follow sig hv.2 h)
+end
+
+/-! ### the module -/
+
+/-- the body of the file (everything after the byte-order mark) -/
+def Module.renderBody (m : Module) : Str := renderDocOpt m.modDoc ++ renderSrcItems m.items ++ renderSep m.tail
+
+theorem lex_module_body (m : Module) (hv : m.valid = true) : LexSig m.renderBody m.sigToks := by
+  simp only [Module.valid, Bool.and_eq_true] at hv
+  obtain ⟨⟨⟨-, hdoc⟩, hitems⟩, htail⟩ := hv
+  have h1 : LexSig (renderSep m.tail) [] := by
+    have := lex_sep m.tail [] htail [] LexSig.nil
+    simpa using this
+  have h2 := lex_items m.items _ _ hitems h1
+  simp only [List.append_nil] at h2
+  simp only [Module.renderBody, Module.sigToks, List.append_assoc]
+  cases hm : m.modDoc with
+  | none => simpa [renderDocOpt] using h2
+  | some d =>
+    rw [hm] at hdoc
+    have := lex_doc d true _ _ hdoc h2
+    simpa [renderDocOpt] using this
+
+theorem call_sigToks_head (c : Call) (rest : List Tok) :
+    ∃ t ts, c.sigToks ++ rest = t :: ts ∧ t.kind = .identifier := ⟨_, _, rfl, rfl⟩
+
+/-- the first significant token of a module is a doccomment or a command name -/
+theorem sigToks_head (m : Module) :
+    m.sigToks = [] ∨ ∃ t ts, m.sigToks = t :: ts ∧
+      (t.kind = .moduleDocstring ∨ t.kind = .docstring ∨ t.kind = .identifier) := by
+  obtain ⟨bom, modDoc, items, tail⟩ := m
+  cases modDoc with
+  | some d => exact Or.inr ⟨_, _, rfl, Or.inl rfl⟩
+  | none =>
+    cases items with
+    | nil => exact Or.inl rfl
+    | cons i is =>
+      right
+      simp only [Module.sigToks, List.nil_append, itemsSigToks]
+      cases i with
+      | dangling d => exact ⟨_, _, rfl, Or.inr (Or.inl rfl)⟩
+      | cmd doc call =>
+        cases doc with
+        | some d => exact ⟨_, _, rfl, Or.inr (Or.inl rfl)⟩
+        | none => exact ⟨_, _, rfl, Or.inr (Or.inr rfl)⟩
+      | block doc o body c =>
+        cases doc with
+        | some d => exact ⟨_, _, rfl, Or.inr (Or.inl rfl)⟩
+        | none => exact ⟨_, _, rfl, Or.inr (Or.inr rfl)⟩
+      | decl doc d i body c =>
+        cases doc with
+        | some d => exact ⟨_, _, rfl, Or.inr (Or.inl rfl)⟩
+        | none => exact ⟨_, _, rfl, Or.inr (Or.inr rfl)⟩
+
+def bomChar : Char := Char.ofNat 0xFEFF
+
+/-- at a byte-order mark no skipped token, doccomment or identifier starts -/
+theorem ruleScore_bom (x : Str) (k : TokKind)
+    (hk : k.skipped = true ∨ k = .moduleDocstring ∨ k = .docstring ∨ k = .identifier) :
+    ruleScore k (bomChar :: x) = none := by
+  have hne : bomChar ≠ '#' := by decide
+  have hb1 : isBlank bomChar = false := by decide
+  have hb2 : isEolCh bomChar = false := by decide
+  have hid : identStart bomChar = false := by decide
+  rcases hk with hk | rfl | rfl | rfl
+  · cases k <;> simp [TokKind.skipped] at hk
+    · simp [ruleScore, plainScore, bracketCommentLen_cons _ hne]
+    · simp [ruleScore, lineCommentLen_cons _ hne]
+    · simp [ruleScore, plainScore, newlineLen_eq, spanLen_cons_false _ hb2]
+    · simp [ruleScore, plainScore, spaceLen_eq, spanLen_cons_false _ hb1]
+  · simp [ruleScore, plainScore, moduleDocstringLen, docStart_prefix_cons _ hne]
+  · simp [ruleScore, plainScore, docstringLen, docStart_prefix_cons _ hne]
+  · simp [ruleScore, plainScore, identLen, hid]
+
+/-- a module body never starts with a byte-order mark -/
+theorem renderBody_head (m : Module) (hv : m.valid = true) (x : Str) : m.renderBody ≠ bomChar :: x := by
+  intro hx
+  obtain ⟨ts, hl, hs⟩ := lex_module_body m hv
+  rw [hx] at hl
+  cases hl with
+  | @cons _ k n ts' hsc hl' =>
+    obtain ⟨sc, hr, -⟩ := scan_rule hsc
+    have hnone := ruleScore_bom x k
+    by_cases hk : k.skipped = true
+    · rw [hnone (Or.inl hk)] at hr; cases hr
+    · have hsig : significant (⟨k, (bomChar :: x).take n⟩ :: ts') = ⟨k, (bomChar :: x).take n⟩ :: significant ts' := by
+        simp [significant, hk]
+      rw [hsig] at hs
+      rcases sigToks_head m with h0 | ⟨t, ts0, h0, hkind⟩
+      · rw [h0] at hs; cases hs
+      · rw [h0] at hs
+        cases hs
+        rw [hnone (Or.inr hkind)] at hr; cases hr
+
+theorem dropBom_of_head {s : Str} (h : ∀ x, s ≠ bomChar :: x) : dropBom s = s := by
+  cases s with
+  | nil => rfl
+  | cons c cs =>
+    simp only [dropBom]
+    split
+    · rename_i hc
+      exfalso
+      apply h cs
+      congr 1
+      rw [← Char.ofNat_toNat c, hc]; rfl
+    · rfl
+
+theorem dropBom_render (m : Module) (hv : m.valid = true) : dropBom m.render = m.renderBody := by
+  simp only [Module.render, Module.renderBody]
+  cases m.bom with
+  | true => simp [dropBom]
+  | false =>
+    simp only [Bool.false_eq_true, if_false, List.nil_append]
+    exact dropBom_of_head (renderBody_head m hv)
+
+/-- **T-lex**: the text printed for a valid decorated module lexes without error, and what the parser gets to
+    see is the module's significant token sequence — whatever the layout. -/
+theorem T_lex (m : Module) (hv : m.valid = true) :
+    ∃ ts, lexAll (dropBom m.render) = .ok ts ∧ significant ts = m.sigToks := by
+  rw [dropBom_render m hv]
+  exact (lex_module_body m hv).lexAll
+
+theorem valid_danglingOk (m : Module) (hv : m.valid = true) : m.danglingOk = true := by
+  simp only [Module.valid, Bool.and_eq_true] at hv
+  exact hv.1.1.1
+
+/-- **T-roundtrip**: lexing and parsing the printed text of a valid decorated module gives back the module's
+    own events -/
+theorem T_roundtrip (m : Module) (hv : m.valid = true) :
+    ∃ ts, lexAll (dropBom m.render) = .ok ts ∧ parse (significant ts) = some m.events := by
+  obtain ⟨ts, h1, h2⟩ := T_lex m hv
+  exact ⟨ts, h1, by rw [h2]; exact T_parse m (valid_danglingOk m hv)⟩
+
+/-- **C04, token level**: two valid decorated modules with the same significant tokens (layout variants of each
+    other) give the parser the same input -/
+theorem T_lex_layout (m₁ m₂ : Module) (h₁ : m₁.valid = true) (h₂ : m₂.valid = true)
+    (hs : m₁.sigToks = m₂.sigToks) :
+    ∃ ts₁ ts₂, lexAll (dropBom m₁.render) = .ok ts₁ ∧ lexAll (dropBom m₂.render) = .ok ts₂ ∧
+      significant ts₁ = significant ts₂ := by
+  obtain ⟨ts₁, a1, a2⟩ := T_lex m₁ h₁
+  obtain ⟨ts₂, b1, b2⟩ := T_lex m₂ h₂
+  exact ⟨ts₁, ts₂, a1, b1, by rw [a2, b2, hs]⟩
 
 end Cminx
